@@ -453,6 +453,21 @@ pub fn c16_native_parameter_corners() {
             runs += 1;
         }
     }
+    // "given valid parameters": the parameters `real_iwo` DOCUMENTS as valid (final_deviation <= initial_deviation, the deviation
+    // shrinks over the run) must be accepted by its constructor and run
+    {
+        let params = iwo::RealProblemParameters { initial_population_size: 3, max_population_size: 6, min_number_of_seeds: 0, max_number_of_seeds: 3, initial_deviation: 1.0, final_deviation: 0.1, modulation_index: 2 };
+        let name = "real_iwo[initial_deviation=1 final_deviation=0.1]";
+        match iwo::real_iwo::<Sphere>(params, cond(n)) {
+            Err(e) => { eprintln!("COUNTEREXAMPLE template={name} clause=documented-parameters-accepted the constructor rejects the documented parameter range: {e}"); failed += 1; }
+            Ok(c) => {
+                let sp = Sphere { returned: Mutex::new(Vec::new()), alt: false };
+                let r = run_one("real_iwo[documented deviations]", 0, n, &sp, &sp.returned, c, &|s: &Vec<f64>| sphere(s));
+                if r.error.is_some() || r.iterations != n || r.final_stack.len() != 1 { eprintln!("COUNTEREXAMPLE template={name} clause=runs-to-completion {:?}, {} iterations, stack {:?}", r.error, r.iterations, r.final_stack); failed += 1; }
+            }
+        }
+        runs += 1;
+    }
     if failed > 0 { panic!("a shipped template does not run to completion with a balanced stack at the edge of its parameter range") }
     println!("c16_native_parameter_corners: {} runs checked", runs);
 }
